@@ -1,8 +1,8 @@
 (** The C02 lemmas for stacks reachable by a history of operations ([reachable] implies the invariant [wf]). *)
-From Coq Require Import List Bool Arith ZArith NArith QArith Qcanon Lia Permutation Sorted.
+From Coq Require Import List Bool Arith ZArith NArith QArith Qcanon Qabs Lia Permutation Sorted.
 From DV Require Import Common.Res Common.Str Stack.Model Stack.Spec Stack.ProofsShape Stack.ProofsInv
   Stack.Sort Orient.Model Orient.Spec Orient.ProofsAff
-  Conv.Geom Conv.GeomSpec Conv.ProofsGeomAff Conv.ProofsGeomData Conv.ProofsGeomSrc Conv.ProofsGeomInv.
+  Conv.Geom Conv.GeomSpec Conv.ProofsGeomAff Conv.ProofsGeomData Conv.ProofsGeomSrc Conv.ProofsGeomInv Conv.ProofsGeomBase Conv.ProofsGeomBound Generated.T_stack.
 Import ListNotations.
 Local Open Scope nat_scope.
 
@@ -81,6 +81,17 @@ Proof.
                   s t v i j g idx' Hs Ht Hv Hg Ha q Hq) as G.
     cbv beta in G. rewrite cell_pos_mod in G by exact Hs. exact G.
   - intros s. apply slice_dev_sum.
+Qed.
+
+Lemma geometry_bound_reachable : forall gs st code embed st' go,
+  reachable st -> conv_geom gs st code embed = (st', Ok go) ->
+  let P := ssort qc_leb (pos_vals st) in
+  (forall s, s < length P -> (Qabs (slice_dev P s) <= NQ s * gap_bound (gap_at P 0))%Q) /\
+  (forall g0, (gap_bound g0 == (1 # 12) * g0 + (25 # 12) * np_atol)%Q).
+Proof.
+  intros gs st code embed st' go Hr H P.
+  destruct (conv_geom_ok _ _ _ _ _ _ H) as (st1 & st2 & sh & i0 & col & Hd & _).
+  split; [exact (slice_dev_bound st st1 _ sh (reachable_wf st Hr) Hd) | exact gap_bound_val].
 Qed.
 
 Lemma values_rescaled_reachable : forall gs st code embed st' go (rs : gfile -> rescale),
